@@ -326,6 +326,7 @@ def output_family():
         outputs('outB', [('file', 0), ('direct', 0), ('stdout', 0)]),
         outputs('outC', [('stdout', 0), ('stdout', 3), ('nothing', 0)]),
         outputs('outL', [('file', 0), ('filedel', 0), ('filedel+stdout', 0)], user_t=False),
+        outputs('outM', [('stdout', 0), ('filedir', 3), ('file', 0)], user_t=False),
         outputs('outD', [('direct', 0), ('file', 7), ('file', 0)]),
         outputs('outE', [('nothing', 0), ('stdout', -9), ('stdout', 0)]),
         outputs('outF', [('file', 0), ('direct', 4), ('nothing', 3)]),
